@@ -4,9 +4,8 @@ open Yaclib.FiberSync
 
 set_option maxHeartbeats 4000000 in
 theorem inv_step_2 {k s l s'} (hi : Inv k s) (hs : Step s l s') (hg : grpOf l = 2) : Inv k s' := by
-  cases hi
   cases hs with
-  | unlockS f w h hh hw => cases w <;> sm_auto
+  | unlock f w h hh hw => cases hi; cases w <;> sm_auto
   | _ => simp [grpOf] at hg
 
 end Yaclib.FiberSync.Sm
